@@ -12,6 +12,11 @@ case = {
                                          gen/c06_archives.expand_pieces: ["lit", str],
                                          ["repeat", pattern, count], ["noise", seed, size] (arbitrary
                                          bytes), ["line", seed, size] (arbitrary bytes except \n)
+  "final_pad": bool,                     optional, default true.  false: the archive file ends right after
+                                         the data of its last member - the newline that pads odd-sized data
+                                         to an even offset is written between members only (ar(5): "a newline
+                                         is inserted between files if necessary"), not after the last one.
+                                         Changes the file only when the last member has an odd size.
   "ops":     [op, ...]                   the history; member indices are taken modulo the number of
                                          live member objects: len(members) x (1 + reopens so far),
                                          numbered ArFile by ArFile in order of opening
@@ -44,7 +49,8 @@ from debian.arfile import ArFile
 
 ID = "C06"
 LEVEL = "exploration"
-RULE = ("cases are (open mode, 0..5 members with name/style/binary data/metadata, history of 1..25 "
+RULE = ("cases are (open mode, 0..5 members with name/style/binary data/metadata, final pad byte after an "
+        "odd-sized last member present or absent, history of 1..25 "
         "read/read(n)/readline/readline(n)/readlines/seek/tell/close/reopen operations interleaved over all "
         "members); reopen opens a further ArFile on the same archive (same path / same bytes) while the earlier "
         "ones stay in use, and its members join the history; after every step the returned value and the tell() "
@@ -54,8 +60,16 @@ RULE = ("cases are (open mode, 0..5 members with name/style/binary data/metadata
         "contents, both open modes (filename mode one operation shorter); every history of <=3 steps with "
         "exactly one reopen (quick: 4 contents, filename mode without the shapes Roo/ooR); big members: for "
         "each power of two B from 4 KiB to 1 MiB, 11 first-member contents of 1..3.25 B bytes, written as "
-        "lit/repeat/noise/line pieces and expanded in the check, x 10 fixed histories x both open modes. "
-        "Generated: Hypothesis archives x histories (members <=64 bytes); Hypothesis big members (1..4 pieces "
+        "lit/repeat/noise/line pieces and expanded in the check, x 10 fixed histories x both open modes, and, for "
+        "the odd-sized ones, the big member as the last of the archive with the file ending at its last byte x 5 "
+        "of the histories; no-final-pad: 15 small archives ending in an odd-sized member, written without the "
+        "final pad byte, x every history of <=2 operations, with and without a second ArFile (quick, filename mode: "
+        "<=1 operation before/after the second ArFile; thorough: <=3); "
+        "header-columns: mtime/uid/gid/mode at every width up to the full column; close-x-siblings: every "
+        "history of 4 operations from read(1)/readline()/close() on 2 members (thorough: 4..6, and after a "
+        "reopen). "
+        "Generated: Hypothesis archives x histories (members <=64 bytes; the final pad byte is left out in half of "
+        "the archives that end in an odd-sized member); Hypothesis big members (1..4 pieces "
         "with sizes k*2**e+d, e = 12..20, k = 1..3, d = -3..3, <=3.5 MiB) x histories of <=12 operations whose "
         "read/readline sizes and seek targets are drawn from the same k*2**e+d family; thorough also builds "
         "the archive with binutils ar. Non-trivial = >=2 members and (a readline/readlines call that "
@@ -65,6 +79,11 @@ ASSUMPTIONS = [
     "io.BytesIO over the member's bytes is the reference file object",
     "the harness ar writer (vcheck/gen/c06_archives.py) follows ar(5); cross-checked byte for byte "
     "against binutils ar qcD in the ar-binary source when /usr/bin/ar exists",
+    "an ar file that ends right after the data of an odd-sized last member is an ar archive in the statement's "
+    "sense: ar(5) inserts the newline 'between files' to align the next header, after the last member nothing "
+    "needs aligning; binutils ar t/p and dpkg-deb -c/-I/-x read such files without complaint (checked by hand "
+    "with GNU ar 2.40 and dpkg-deb 1.21.22; bsdtar lists every member, then warns). Every pad byte between "
+    "members is always written; the binutils-built archives (writer 'ar') always carry the final one",
     "read(0)/negative sizes, readlines(hint), negative seek targets, next()/iteration are outside "
     "the statement and never generated; seek()'s return value is not compared (checked via tell())",
     "a further ArFile on the same archive, opened while the first is alive, is 're-opening by file name' / "
@@ -95,7 +114,9 @@ EXHAUSTIVE_BIG = ("for every block size B = 2**12 .. 2**20: 11 contents of a fir
                   "line without end, a line of 3 B inside short ones, a line of 1.25 B, arbitrary bytes, short "
                   "lines filling exactly B / 2B or ending 1..3 bytes past / 1 byte before a multiple of B) x 10 "
                   "fixed histories (readlines from the start, after a seek, after read(B+1), after readline(B+5); "
-                  "read()/readline loops; a second ArFile) x both open modes")
+                  "read()/readline loops; a second ArFile) x both open modes; for the contents of odd size also the "
+                  "archive [small member, big member] whose file ends with the big member's last byte (no final "
+                  "pad byte) x 5 of these histories x both open modes")
 BUDGET = {"quick": 200, "thorough": 1500}
 
 MAX_MEMBER_SIZE = 8 << 20     # replay files only: generated members stay below 4 MiB
@@ -149,6 +170,7 @@ def _valid_op(op):
 def valid_case(case):
     return (isinstance(case, dict) and case.get("open") in ("fileobj", "filename")
             and case.get("writer", "harness") in ("harness", "ar")
+            and isinstance(case.get("final_pad", True), bool)
             and isinstance(case.get("members"), list) and isinstance(case.get("ops"), list)
             and all(isinstance(m, dict) and _valid_member(m) for m in case["members"])
             and all(_valid_op(op) for op in case["ops"]))
@@ -394,8 +416,13 @@ def check(case):
                data=A.expand_pieces(m["gen"]) if "gen" in m else s2b(m["data"]),
                mtime=m.get("mtime", 0), uid=m.get("uid", 0), gid=m.get("gid", 0),
                mode=m.get("mode", 0o100644)) for m in case["members"]]
-    raw, _ = A.ar_archive(ms)
+    padded = A.ar_archive_bytes(ms)
+    raw = A.ar_archive_bytes(ms, final_pad=case.get("final_pad", True))      # the archive under test
     labels = set(["open:" + case["open"], "members:%s" % (len(ms) if len(ms) < 3 else "3+")])
+    if ms and len(ms[-1]["data"]) % 2:
+        labels.add("last-member-odd:final-pad-" + ("present" if raw == padded else "absent"))
+        if raw != padded and len(ms[-1]["data"]) >= 4096:
+            labels.add("big-last-member-ends-at-end-of-file")
     for m in ms:
         d = m["data"]
         labels.add("member-size-odd" if len(d) % 2 else "member-size-even")
@@ -426,7 +453,7 @@ def check(case):
                 built = A.ar_binary_archive(ms, workdir)
                 if built is None:
                     labels.add("ar-binary:not-applicable")
-                elif built == raw:
+                elif built == padded:      # binutils ar always writes the pad byte
                     labels.add("ar-binary:identical-to-harness-writer")
                 elif built[8:24] == b"/".ljust(16):
                     # bfd took some member's bytes for an object file and ar prepended a symbol
@@ -530,6 +557,117 @@ REOPEN_QUICK = [("filename", ENUM_DEEP, ("R", "Ro", "oR", "oRo")), ("fileobj", E
 REOPEN_THOROUGH = [("filename", ENUM_FIRST, REOPEN_ALL), ("fileobj", ENUM_FIRST, REOPEN_ALL)]
 
 
+def _shape_histories(shape, nmembers, alphabet):
+    """Every history of a shape: 'o' = one operation of the alphabet on any live member object,
+    'R' = a further ArFile on the same archive (its members join the live ones)."""
+    live, slots = nmembers, []
+    for ch in shape:
+        if ch == "R":
+            slots.append([["reopen"]])
+            live += nmembers
+        else:
+            slots.append([[o[0], i] + o[1:] for i in range(live) for o in alphabet])
+    for seq in itertools.product(*slots):
+        yield [list(o) for o in seq]
+
+
+# ------------------------------------------------------------------------------------------
+# the end of the archive file: with and without the pad byte after an odd-sized last member
+
+# contents of the members; every archive ends in a member of odd size
+FINAL_PAD_ARCHIVES = ([[first, "x\ny"] for first in ENUM_FIRST]          # the archives of histories<=3
+                      + [["\n"], ["a"], ["a\nb"], ["line1\nline2"]]      # the last member is the only one
+                      + [["a\nb", "xy\n"], ["ab", "\n"], ["a", "b", "c"]])
+assert all(len(a[-1]) % 2 for a in FINAL_PAD_ARCHIVES)
+
+
+def enum_final_pad_cases(plan):
+    """plan: list of (open mode, shapes); every archive of FINAL_PAD_ARCHIVES, written without the
+    final pad byte, x every history of every shape over the 14-operation alphabet."""
+    def gen():
+        for mode, shapes in plan:
+            for contents in FINAL_PAD_ARCHIVES:
+                members = [_enum_member("abc"[k], d) for k, d in enumerate(contents)]
+                for shape in shapes:
+                    for ops in _shape_histories(shape, len(members), ENUM_OPS):
+                        yield {"open": mode, "members": members, "final_pad": False, "ops": ops}
+    return gen
+
+
+FINAL_PAD_QUICK = [("fileobj", ("o", "oo", "R", "Ro", "oR")), ("filename", ("o", "R", "Ro", "oR"))]
+FINAL_PAD_THOROUGH = [("fileobj", ("o", "oo", "ooo", "R", "Ro", "oR", "oRo")),
+                      ("filename", ("o", "oo", "ooo", "R", "Ro", "oR", "oRo"))]
+EXHAUSTIVE_FINAL_PAD = {
+    "quick": "15 archives of 1..3 small members whose last member has an odd size (the 8 archives of histories<=3; "
+             "4 single-member ones; last member ending in a newline / one byte long / third of three), the file "
+             "ending right after the last member's data (no pad byte) x all histories of the shapes o, oo, R, Ro, oR "
+             "(o = one of the 14 operations on any live member object, R = a second ArFile) in fileobj mode, of the "
+             "shapes o, R, Ro, oR in filename mode",
+    "thorough": "the same 15 archives without the final pad byte x all histories of the shapes o, oo, ooo, R, Ro, "
+                "oR, oRo x both open modes",
+}
+
+
+# ------------------------------------------------------------------------------------------
+# header columns: every numeric field at every width up to its full column
+
+HEADER_FIELDS = [("mtime", 12, 10), ("uid", 6, 10), ("gid", 6, 10), ("mode", 8, 8)]   # (key, columns, base)
+HEADER_OPS = [["read", 0, 2], ["readline", 1], ["read", 0], ["readlines", 1], ["tell", 0]]
+
+
+def enum_header_cases(modes):
+    def metas():
+        for key, width, base in HEADER_FIELDS:
+            for w in range(1, width + 1):
+                for value in sorted(set([base ** (w - 1), base ** w - 1])):      # smallest / largest of w digits
+                    yield "gnu", "m", {key: value}
+        for full in itertools.product((False, True), repeat=len(HEADER_FIELDS)):
+            meta = dict((key, base ** width - 1 if f else 0) for (key, width, base), f in zip(HEADER_FIELDS, full))
+            for style, name in (("gnu", "m"), ("gnu", "m" * 15), ("pad", "m"), ("pad", "m" * 16)):
+                yield style, name, meta
+
+    def gen():
+        for style, name, meta in metas():
+            special = dict(_enum_member(name, "a\nb"), style=style, **meta)
+            plain = _enum_member("z", "x\ny")
+            for members in ([special, plain], [plain, special], [special, dict(special, data="x\ny")]):
+                for mode in modes:
+                    yield {"open": mode, "members": members, "ops": HEADER_OPS}
+    return gen
+
+
+EXHAUSTIVE_HEADER = ("for each of mtime (12 columns), uid (6), gid (6), mode (8, octal): the smallest and the "
+                     "largest value of every width from 1 digit to the full column, the other fields 0; all 16 "
+                     "combinations of column-filling / zero values of the four fields x gnu and blank-padded "
+                     "name style x a 1-character and a field-filling name; each on the first, the second and both "
+                     "of 2 members x both open modes, one fixed history")
+
+
+# ------------------------------------------------------------------------------------------
+# close() of one member while its siblings are in use
+
+CLOSE_OPS = [["read", 1], ["readline"], ["close"]]
+CLOSE_QUICK = [("filename", ("oooo",)), ("fileobj", ("oooo",))]
+CLOSE_THOROUGH = [("filename", ("oooo", "ooooo", "oooooo", "Roooo")), ("fileobj", ("oooo", "ooooo"))]
+EXHAUSTIVE_CLOSE = {
+    "quick": "all histories of 4 operations from read(1), readline(), close() on each of 2 members ('a\\nb', "
+             "'x\\ny'), both open modes: every way of closing one member between two reads of another",
+    "thorough": "all histories of 4..6 operations (fileobj mode: 4..5) from read(1), readline(), close() on each of "
+                "2 members; filename mode also a second ArFile followed by every history of 4 such operations on "
+                "the 4 live member objects",
+}
+
+
+def enum_close_cases(plan):
+    def gen():
+        members = [_enum_member("a", "a\nb"), _enum_member("b", "x\ny")]
+        for mode, shapes in plan:
+            for shape in shapes:
+                for ops in _shape_histories(shape, 2, CLOSE_OPS):
+                    yield {"open": mode, "members": members, "ops": ops}
+    return gen
+
+
 # ------------------------------------------------------------------------------------------
 # big members: contents and positions around multiples of a block size B, for every power of two
 # B from 4 KiB to 1 MiB (buffer and block sizes a reader may work with), x a fixed set of histories
@@ -596,7 +734,16 @@ def big_cases(blocks, modes):
                 for mode in modes:
                     for ops in big_histories(B):
                         yield {"open": mode, "members": members, "ops": ops}
+                # the big member as the LAST one, the file ending with its last byte (no pad byte)
+                if sum(A.piece_size(p) for p in pieces) % 2:
+                    for mode in modes:
+                        for k in BIG_LAST_HISTORIES:
+                            ops = [op[:1] + [op[1] ^ 1] + op[2:] if len(op) > 1 else op for op in big_histories(B)[k]]
+                            yield {"open": mode, "members": members[::-1], "final_pad": False, "ops": ops}
     return gen
+
+
+BIG_LAST_HISTORIES = (0, 3, 4, 7, 9)     # indices into big_histories()
 
 
 # ------------------------------------------------------------------------------------------
@@ -648,13 +795,28 @@ op_st = st.one_of(
 ops_st = st.lists(op_st, min_size=1, max_size=25)
 
 
+def _member_size(m):
+    return sum(A.piece_size(p) for p in m["gen"]) if "gen" in m else len(m["data"])
+
+
+def _settle_final_pad(case):
+    """"final_pad": false only where it changes the archive (a last member of odd size).
+
+    The drawn flag is "omit_final_pad" so that Hypothesis shrinks towards the usual, padded file."""
+    if case.pop("omit_final_pad", False) and case["members"] and _member_size(case["members"][-1]) % 2:
+        case["final_pad"] = False
+    return case
+
+
 def case_st(writer="harness"):
     mst = member_st if writer == "harness" else plain_member_st
     members = st.one_of(st.lists(mst, min_size=0, max_size=5), st.lists(mst, min_size=2, max_size=5))
     fixed = {"open": st.sampled_from(["fileobj", "filename"]), "members": members, "ops": ops_st}
     if writer != "harness":
-        fixed["writer"] = st.just(writer)
-    return st.fixed_dictionaries(fixed)
+        fixed["writer"] = st.just(writer)       # binutils ar always writes the final pad byte
+        return st.fixed_dictionaries(fixed)
+    fixed["omit_final_pad"] = st.booleans()
+    return st.fixed_dictionaries(fixed).map(_settle_final_pad)
 
 
 # big members: sizes, counts and positions k * 2**e + d around multiples of powers of two
@@ -704,7 +866,8 @@ big_case_st = st.fixed_dictionaries({
                          st.lists(member_st, max_size=1), big_member_st,
                          st.lists(st.one_of(member_st, big_member_st), max_size=1)),
     "ops": st.lists(big_op_st, min_size=1, max_size=12),
-})
+    "omit_final_pad": st.booleans(),
+}).map(_settle_final_pad)
 
 
 def externals_phase(shard, nshards, seed, deadline, rec):
@@ -719,6 +882,9 @@ def sources(tier):
                 Hyp("big-members-x-histories", big_case_st, 40, shards=2),
                 Enum("big-members", big_cases(BIG_BLOCKS, ["fileobj", "filename"]), EXHAUSTIVE_BIG),
                 Hyp("archives-x-histories", case_st(), 1200, shards=8),
+                Enum("header-columns", enum_header_cases(["fileobj", "filename"]), EXHAUSTIVE_HEADER),
+                Enum("no-final-pad", enum_final_pad_cases(FINAL_PAD_QUICK), EXHAUSTIVE_FINAL_PAD["quick"]),
+                Enum("close-x-siblings", enum_close_cases(CLOSE_QUICK), EXHAUSTIVE_CLOSE["quick"]),
                 Enum("one-reopen", enum_reopen_cases(REOPEN_QUICK), EXHAUSTIVE_REOPEN["quick"]),
                 Enum("histories<=3", enum_cases(ENUM_QUICK), EXHAUSTIVE["quick"])]
     return [Custom("externals", externals_phase, shards=1),
@@ -726,5 +892,8 @@ def sources(tier):
             Hyp("big-members-x-histories", big_case_st, 150, shards=8),
             Enum("big-members", big_cases(BIG_BLOCKS, ["fileobj", "filename"]), EXHAUSTIVE_BIG),
             Hyp("archives-x-histories", case_st(), 6000, shards=16),
+            Enum("header-columns", enum_header_cases(["fileobj", "filename"]), EXHAUSTIVE_HEADER),
+            Enum("no-final-pad", enum_final_pad_cases(FINAL_PAD_THOROUGH), EXHAUSTIVE_FINAL_PAD["thorough"]),
+            Enum("close-x-siblings", enum_close_cases(CLOSE_THOROUGH), EXHAUSTIVE_CLOSE["thorough"]),
             Enum("one-reopen", enum_reopen_cases(REOPEN_THOROUGH), EXHAUSTIVE_REOPEN["thorough"]),
             Enum("histories<=4", enum_cases(ENUM_THOROUGH), EXHAUSTIVE["thorough"])]
